@@ -28,7 +28,7 @@ def do_case(ctx, inp):
     va = pnd.variable_ndarray(np.zeros(n, dtype=np.int64), variables=vs)
     unknown = any(k not in ids for k in d)
     ctx.case(inp, nontrivial=unknown or any(not isinstance(i, str) for i in ids) or any(b != [0, 1] for b in bnds),
-             tags={"dflt-" + (dfl if isinstance(dfl, str) else "callable-const")} | ({"unknown-id"} if unknown else set())
+             tags=({"list-repeats-an-id"} if len(set(map(repr, lst))) < len(lst) else set()) | {"dflt-" + (dfl if isinstance(dfl, str) else "callable-const")} | ({"unknown-id"} if unknown else set())
                   | ({"hash-colliding-twin-of-previous-array"} if inp.get("twin") else set())
                   | ({"explicit-zero-for-known-id"} if any(v == 0 and k in ids for k, v in d.items()) else set()))
     if dfl == "lower":
@@ -87,6 +87,10 @@ def run(ctx):
         # boolean_ndarray.from_list treats a tuple in first position as a nested group (documented input form),
         # so tuple ids are not used inside `lst`
         lst = rng.sample([i for i in POOL if not isinstance(i, tuple)], rng.randint(0, 4))
+        if lst and rng.random() < 0.35:
+            # an id listed more than once: the integer form marks its FIRST position
+            for _ in range(rng.randint(1, 2)):
+                lst.insert(rng.randint(0, len(lst)), rng.choice(lst))
         vec = [rng.choice([0, 1, 1, 2]) for _ in ids]
         dfl = rng.choice(["lower", "nan", "upper", {"const": rng.randint(-3, 3)}])
         row = [rng.randint(-5, 5) for _ in range(k + 1)]
